@@ -440,6 +440,8 @@ class Interp:
             try:
                 o[k] = v
             except (TypeError, ValueError, IndexError) as e:
+                if isinstance(e, TypeError) and (hasattr(o, "__generic__") or type(o).__module__.startswith(("vfw.", "contracts."))):
+                    raise Unsupported(f"item assignment on {type(o).__name__} has no model")  # a gap of the model, not an exception of the code
                 raise _wrap_native(e, t)
             return
         if isinstance(t, ast.Starred):
